@@ -3,8 +3,8 @@
 Level "other" (DESIGN §8.1: exploration with a *proved* oracle).
 proof : lean/UsualProofs/Props/C04.lean proves the REFERENCE (lean/Usual/C04/Regex.lean):
         `ends` is sound and complete for the declarative semantics `Matches`, `llmatch` is exactly
-        the leftmost-longest answer, and the parser model inverts the renderer on the
-        bracket-free fragment.  Nothing is proved about the C back-tracking matcher.
+        the leftmost-longest answer, and the parser models invert the renderers on the
+        bracket-free fragments of ERE and BRE.  Nothing is proved about the C back-tracking matcher.
 T-tie : lean/Usual/Gen/C04Tab.lean (error codes, flag bits, MAX_COUNT, MAX_GROUPS, ctype_list
         names) is regenerated from usual/regex.[ch] on every run (c04_gen.py).
 C-tie : harness/C04/h.c (internal regex forced with -DUSE_INTERNAL_REGEX, exact-size heap
@@ -475,6 +475,11 @@ class Runner:
         t0 = _t.time()
         c_all, m_all = self.both_parallel(lines)
         h = self.hist
+        if label not in h.setdefault("sampled", []):
+            h["sampled"].append(label)
+            mid = len(lines) // 2
+            ck.sample({"generator": label, "op": lines[mid][:220], "impl": c_all[mid][:120], "model": m_all[mid][:120]},
+                      limit=8)
         ph = ck.cov.setdefault("phase_s", {})
         ph[label] = round(ph.get(label, 0) + _t.time() - t0, 1)
         h["lines"] += len(lines)
@@ -746,6 +751,16 @@ def run_roundtrip(ck, dcmd, trees):
 def run(ck):
     hcmd, dcmd = build(ck)
     ck.level = "other"
+    ck.cov["explanation"] = (
+        "Exploration with a proved oracle.  Kernel-checked Lean theorems establish that the reference used as oracle is "
+        "right: `ends` is sound and complete for the declarative POSIX semantics `Matches` (anchors/flags in context), "
+        "`llmatch` is exactly the leftmost-longest overall match (and `none` iff no substring matches), and the parser "
+        "models invert the ERE/BRE renderers on the bracket-free fragments.  The C matcher is not proved: regcomp rc/"
+        "re_nsub and regexec rc/pmatch[0] of the real code (ASan+UBSan build, exact-size heap strings, calloc/free "
+        "accounting) are compared with the oracle on a bounded-exhaustive family (all trees up to a node bound x all "
+        "subjects up to a length bound x flag sets x nmatch in {0,1,nsub+2}), random trees, byte mutations and hand-made "
+        "malformed patterns; pmatch[1..] is monitored with the sub-match clause (pmatchOk) and compared with the AT&T "
+        "reference table.  obligations/discharged count the theorems; evaluations count regcomp+regexec calls compared.")
     ck.cov["trusted_base"] = [
         "Lean 4.33.0 kernel; axioms of the property theorems: subset of propext, Quot.sound, Classical.choice (audited this run)",
         "the theorems are about the REFERENCE matcher/parser in lean/Usual/C04 (declarative semantics `Matches`); "
@@ -775,6 +790,15 @@ def run(ck):
         "bytes); non-trivial = compiles and is executed on at least one subject")
     rng = vf.SplitMix(ck.seed)
     rn = Runner(ck, hcmd, dcmd)
+
+    def enough():
+        """concrete failing inputs already in hand: no point in searching further"""
+        if len([v for v in ck.violations if v["kind"] == "obs"]) >= 3:
+            ck.cov["stopped_early"] = "3 concrete failing inputs found; remaining generators skipped"
+            ck.cov["histogram"] = rn.hist
+            ck.cov["skipped_slow"] = rn.hist["skipped_slow"]
+            return True
+        return False
     intensify = not ck.proof_ok
     thorough = (ck.tier != "quick") or intensify
 
@@ -792,6 +816,8 @@ def run(ck):
 
     # ---- AT&T regression table
     run_att(ck, rn, hcmd, dcmd)
+    if enough():
+        return
 
     # ---- bounded-exhaustive
     # quick   : all trees <= 4 nodes x all subjects over {a,b,\n} up to length 5
@@ -806,36 +832,54 @@ def run(ck):
     trees = [(t, n) for n in range(1, nmax + 1) for t in enum_trees(n)]
     ck.cov["exhaustive"] = {"max_nodes": nmax, "trees": len(trees), "subject_maxlen": slen,
                             "subjects": len(subs[slen])}
-    lines = []
-    npat = 0
+    npat = [0]
     rot = ck.seed
-    for ti, (t, nn) in enumerate(trees):
-        anchored = has(t, "^") or has(t, "$")
-        nl_rel = anchored or has(t, ".") or any(True for _ in [0] if has(t, "cls"))
-        for ere in (True, False):
-            if not ere and has(t, "alt"):
-                continue
-            pat = render(t, ere)
-            if not pat:
-                continue
-            npat += 1
-            base = EXT if ere else 0
-            r8 = (ti + rot) % 8 == 0
-            if nn <= 4:
-                full = subs[slen]
-            else:
-                full = subs[6] if (ti + rot) % 16 == 0 else subs[4]
-            small = subs[slen - 2] if nn <= 4 else subs[3]
-            efs = [0, 16, 32, 48] if anchored else ([0, 48] if r8 else [0])
-            lines.append(xline(base, pat, [0, 1, "m"], efs, full))
-            lines.append(xline(base | NEWLINE, pat, [0, 1, "m"], efs, full if nl_rel else (small if r8 else subs[2])))
-            lines.append(xline(base | NOSUB, pat, [0, 1], efs[:2], full if r8 else small))
-            lines.append(xline(base | NOSUB | NEWLINE, pat, [0, 1], efs[:2], small if (nl_rel or r8) else subs[2]))
-            for cf in (ICASE, ICASE | NEWLINE, ICASE | NOSUB, ICASE | NEWLINE | NOSUB):
-                lines.append(xline(base | cf, pat, [1], [0, 48] if anchored else [0], small if r8 else subs[2]))
-    ck.cov["exhaustive"]["patterns_rendered"] = npat
-    for ch in vf.chunks(lines, 16 * 1500):
+
+    def exh_lines():
+      lines = []
+      for ti, (t, nn) in enumerate(trees):
+          anchored = has(t, "^") or has(t, "$")
+          nl_rel = anchored or has(t, ".") or has(t, "cls")
+          for ere in (True, False):
+              if not ere and has(t, "alt"):
+                  continue
+              pat = render(t, ere)
+              if not pat:
+                  continue
+              npat[0] += 1
+              base = EXT if ere else 0
+              r8 = (ti + rot) % 8 == 0
+              if nn <= 4:
+                  full = subs[slen]
+              else:
+                  full = subs[6] if (ti + rot) % 16 == 0 else subs[4]
+              small = subs[slen - 2] if nn <= 4 else subs[3]
+              hb, he = has(t, "^"), has(t, "$")
+              if (hb and he) or (anchored and r8):
+                  efs = [0, 16, 32, 48]
+              elif hb:
+                  efs = [0, 16]           # REG_NOTEOL cannot reach a pattern without `$`
+              elif he:
+                  efs = [0, 32]
+              else:
+                  efs = [0, 48] if r8 else [0]
+              lines.append(xline(base, pat, [0, 1, "m"], efs, full))
+              lines.append(xline(base | NEWLINE, pat, [0, "m"], efs, full if nl_rel else (small if r8 else subs[2])))
+              lines.append(xline(base | NOSUB, pat, [0, 1], efs[:2], full if r8 else small))
+              lines.append(xline(base | NOSUB | NEWLINE, pat, [0, 1], efs[:2], small if (nl_rel or r8) else subs[2]))
+              for cf in (ICASE, ICASE | NEWLINE, ICASE | NOSUB, ICASE | NEWLINE | NOSUB):
+                  lines.append(xline(base | cf, pat, [1], [0, 48] if anchored else [0], small if r8 else subs[2]))
+          if len(lines) >= 16 * 1500:
+              yield lines
+              lines = []
+      if lines:
+          yield lines
+
+    for ch in exh_lines():
         rn.run_x(ch, "exhaustive")
+        if enough():
+            return
+    ck.cov["exhaustive"]["patterns_rendered"] = npat[0]
 
     # ---- ICASE slice: letters in both cases, exhaustive small
     lines = []
@@ -851,6 +895,8 @@ def run(ck):
                     for cf in (0, ICASE, ICASE | NEWLINE):
                         lines.append(xline((EXT if ere else 0) | cf, render(t, ere), [0, 1], [0], ic_subs))
     rn.run_x(lines, "icase-slice")
+    if enough():
+        return
 
     # ---- random trees
     nrand = ck.scale(1500, 40000) * (4 if intensify else 1)
@@ -889,15 +935,14 @@ def run(ck):
     for ch in vf.chunks(lines, 16 * 500):
         rn.run_x(ch, "mutation")
 
-    for l in (lines[:2] if lines else []):
-        ck.sample(l[:160])
     ck.cov["histogram"] = rn.hist
     ck.cov["skipped_slow"] = rn.hist["skipped_slow"]
     ck.cov["partial"] = [
         "no theorem about the C matcher's algorithm (scan_next/match_group/match_gend/gm_resolve_tie): compared with the proved reference on results",
         "sub-match offsets: monitored with pmatchOk on the implementation's output and compared with the AT&T table, not proved",
-        "parse_render proved for the bracket-free ERE fragment (parse_render_ere_partial); bracket expressions and BRE are "
-        "covered by the run-time round-trip instances and by the differential run of the parser model against regcomp",
+        "parse_render proved for the bracket-free fragments of ERE and BRE (parse_render_ere_partial, "
+        "parse_render_bre_partial); bracket expressions (op_class) are modelled and compared with regcomp differentially, "
+        "there is no bitmap->bracket renderer to invert",
     ]
     if ck.tier != "quick" and ck.proof_ok:
         ck.leanchecker(PROP_MODULES[:1])
